@@ -23,7 +23,9 @@ RULE = ("k = 1..4 layers (quick: all k! completion orders for k <= 3, sampled fo
         "total. Non-trivial = k >= 2 and a completion order different from the layer order; distinct by (k, N, order, "
         "collector)")
 ASSUMPTIONS = ["that a dead thread implies a reaped child (kill + communicate in finally) and the 10 ms polling are runtime",
-               "equality of tests/outcomes with the sequential run is covered by the world runs of C02/C03/C12 with -j N"]
+               "equality of tests/outcomes with the sequential run is covered by the world runs of C02/C03/C12 with -j N",
+               "'each layer's output' = every line of the child that is not a keep-alive line of dots; a dots-only line "
+               "written by a test cannot be told apart from one (KNOWN-FINDING D38 of C13)"]
 TRUSTED = ["CPython threading / queue (the fake child replaces only subprocess handling)"]
 
 
